@@ -971,6 +971,27 @@ def main(tier):
                              {"project": {file_of(m): render_module(m) for m in projects[i][2]}, "cli_edges": ce_, "hook_edges": r["edges"],
                               "cli_max_depth": da.get("MaxDepth"), "hook_max_depth": r["max_depth"]})
 
+        # the analysis options reach the module analyzer from the [dependencies] section of .pyscn.toml
+        picked = []
+        for want in (lambda o: not o["rel"], lambda o: not o["third"] and o["rel"], lambda o: o["stdlib"] and o["third"] and o["rel"]):
+            c = [x for x in xs if x["opts"] and not x["opts"]["excl"] and x["marker"] != "setup.py" and not x["prefix"] and want(x["opts"])
+                 and "error" not in x.get("impl", {"error": 1})]
+            picked += c[:1] if not thorough else c[:3]
+        for x in picked:
+            o = x["opts"]
+            with open(os.path.join(x["root"], ".pyscn.toml"), "w") as f:
+                f.write("[dependencies]\ninclude_stdlib = %s\ninclude_third_party = %s\nfollow_relative = %s\n"
+                        % tuple("true" if o[k] else "false" for k in ("stdlib", "third", "rel")))
+            rc, data, err = lib.analyze_json(x["root"], ["--select", "deps"])
+            n_cli += 1
+            da = ((data or {}).get("system") or {}).get("DependencyAnalysis") if data else None
+            ce_ = sorted([a, b] for a, row in ((da or {}).get("DependencyMatrix") or {}).items() for b, v in (row or {}).items() if v)
+            if not da or ce_ != sorted(list(e) for e in x["impl"]["edges"]):
+                ck.violation("`pyscn analyze --select deps` with [dependencies] %s in .pyscn.toml reports a different graph than "
+                             "service.AnalyzeDependencies with these options" % o,
+                             {"project": {file_of(m): render_module(m) for m in x["mods"]}, "options": o, "cli_edges": ce_,
+                              "hook_edges": x["impl"]["edges"], "stderr": err[-300:]})
+
     ck.samples = [{"family": projects[k][0], "files": {file_of(m): render_module(m)[-300:] for m in projects[k][2][:3]},
                    "impl_edges": impl[2 * k].get("edges") if impl else None} for k in (0, 5, len(projects) // 2)]
     ck.cov.update({
